@@ -430,8 +430,52 @@ def _int_boundary_exhaustive(ctx):
     ctx.exhaustive["integer_boundaries_per_width"] = True
 
 
+def _aliasing(ctx, n):
+    """A variable built from a list holds that value: the caller changing his list afterwards must not change the variable."""
+    rng = ctx.rng
+    for _ in range(n):
+        fmt = rng.choice([f for f in gen.LEAF_FMTS if f not in ("A", "J", "B")])
+        leaf = gen.leaf(rng, fmt, n=rng.choice([2, 3, 5]))
+        ref = e5ref.encode(leaf)
+        src = [bool(v) for v in leaf[1]] if fmt == "BOOLEAN" else list(leaf[1])
+        try:
+            obj = sv.VCLS[fmt](src)
+        except Exception:
+            continue
+        ctx.count("oracle.construct_then_caller_changes_his_list")
+        ctx.case(("alias", fmt, ref))
+        try:
+            src.append(src[0])
+            src[0] = src[1]
+            del src[1]
+            enc = obj.encode()
+        except Exception as exc:
+            ctx.violation(f"variable-aliases-the-callers-list:{fmt}:{type(exc).__name__}", {"tree": gen.describe(leaf), "error": repr(exc)[:200]})
+            continue
+        if enc != ref:
+            ctx.violation(f"variable-aliases-the-callers-list:{fmt}", {"tree": gen.describe(leaf), "encoded_after_the_list_was_changed": enc[:60], "reference": ref[:60]})
+    # lists of variables
+    for _ in range(n // 4):
+        kids = [gen.leaf(rng, rng.choice(["U1", "A", "I2"]), n=1) for _ in range(3)]
+        tree = ("L", kids)
+        ref = e5ref.encode(tree)
+        src = [sv.to_variable(k) for k in kids]
+        try:
+            obj = sv.V.Array(sv.ANYVALUE, src)
+            src.reverse()
+            src.pop()
+            enc = obj.encode()
+        except Exception as exc:
+            ctx.violation(f"variable-aliases-the-callers-list:L:{type(exc).__name__}", {"tree": gen.describe(tree), "error": repr(exc)[:200]})
+            continue
+        ctx.count("oracle.construct_then_caller_changes_his_list")
+        if enc != ref:
+            ctx.violation("variable-aliases-the-callers-list:L", {"tree": gen.describe(tree), "encoded_after_the_list_was_changed": enc[:60], "reference": ref[:60]})
+
+
 def run(ctx):
     n = 6000 if ctx.quick else 350000
+    _aliasing(ctx, 200 if ctx.quick else 20000)
     if ctx.shard == 0:
         _exhaustive_single_bytes(ctx)
     if ctx.shard == 1 % ctx.nshards:
